@@ -1211,7 +1211,7 @@ impl World {
                     fails.push(("C07", "object still in conflict after resolution".into()));
                 }
                 let rd = read_res(m);
-                if rd.get("ok").is_none() {
+                if read_before.get("ok").is_some() && rd.get("ok").is_none() {
                     fails.push(("C07", format!("read fails after resolution: {}", js(&rd))));
                     fails.push(("C08", format!("read fails after resolution: {}", js(&rd))));
                 }
@@ -1471,10 +1471,13 @@ impl World {
             return;
         }
         let u = &objs[pick % objs.len()];
+        // (a replica that only holds objects created through the object API has no root: `read` reports
+        // no_root before and after)
+        let read_before = read_res(m);
         let _ = m.delete_object(u);
         let rd = read_res(m);
         self.emit("delete", r, "ok", json!({"uuid": u}));
-        if rd.get("ok").is_none() {
+        if read_before.get("ok").is_some() && rd.get("ok").is_none() {
             self.fail("C08", format!("read fails after delete_object: {}", js(&rd)));
         }
     }
